@@ -477,6 +477,21 @@ def check_C18(tier, seed):
                       theorems=['C18_even_is_next_odd', 'C18_always_odd', 'C18_same_object'])
 
 
+def check_C01(tier, seed):
+    return reflective('C01', tier, seed, 'oracle_C01',
+                      'Proved (props/C01.v over theories/Series.v, a verified series algebra: trigonometric-polynomial product teval_tmul, theta-derivative teval_tdth_derive, Cauchy product seval_smul) on the programs '
+                      'regenerated from init_axis, r1_diagnostics, calculate_r2, calculate_r3 (both helicity variants) and the residual equations of the Newton and linear solves, in the continuum model: '
+                      'the residual series of "contravariant = covariant field" built from ATTRIBUTE VALUES ONLY (props/C01_spec.v: tangent vectors of r0 + X n + Y b + Z t with the Frenet-Serret rotation, Jacobian '
+                      'e_r.(e_theta x e_phi), prescribed |B|, G0 + r^2 (G2 + (iota - iotaN) I2), I = r^2 I2, beta = r beta_1s sin) have vanishing coefficients -- order r1: pol[r^0..2], tor[r^0..1], rad[r^0], jac[r^0..1], '
+                      'modB[r^0..1], crl[r^0] in every harmonic, and the poloidally averaged O(r^2) condition avg pol[r^3] = 0, crl[r^1] = 0 (= the sigma equation), for ARBITRARY values of all higher-order attributes; '
+                      'order r2: pol[r^3], tor[r^2], rad[r^1], jac[r^2], modB[r^2], crl[r^2] in every harmonic (crl[r^2] = the two O(r^2) ODEs; rad includes the pressure-driven beta_1s term), arbitrary third-order attributes; '
+                      'order r3: avg tor[r^3] = avg jac[r^3] = 0. Hypotheses: admissibility (sG^2 = spsi^2 = 1, constants, etabar, curvature, d_varphi_d_phi non-zero, B0 > 0, |G0|/B0 > 0), sigma equation and O(r^2) system solved '
+                      '(oracle residuals, measured each run). Not claimed because they contain coefficients the code sets to zero (Z3, X3c3, ...): rad[r^2], pol[r^4], the second harmonics of tor[r^3], jac[r^3]. '
+                      'The harness evaluates the same claims on live objects with an independent numpy series algebra (FFT in the angle), all orders, both signs, symmetric and non-symmetric, fresh and history-built objects.',
+                      gprops=False, seq_obligations=['props/C04_spec.v', 'props/C01_spec.v', 'props/C01.v'], theory_obligations=['Series'], ncorr=(8 if tier == 'quick' else 60),
+                      theorems=['C01_r1_h0', 'C01_r1_hN', 'C01_r2_h0', 'C01_r2_hN', 'C01_r3_h0', 'C01_r3_hN', 'pol3_avg_identity', 'crl1_identity', 'Series.teval_tmul', 'Series.teval_tdth_derive', 'Series.seval_smul'])
+
+
 def check_C10(tier, seed):
     return reflective('C10', tier, seed, 'oracle_C10',
                       'Proved on the regenerated programs (init_axis, r1_diagnostics, calculate_r2, calculate_grad_B_tensor, calculate_grad_grad_B_tensor, the two API variants, _residual) sharing one object state, '
@@ -499,7 +514,7 @@ NEEDS = {
     'C04': ['Expr', 'Shallow'], 'C11': ['Expr', 'Shallow'], 'C13': ['Expr', 'Shallow', 'Quadrant', 'Winding'], 'C19': ['Expr', 'Equiv', 'Dim', 'Sign'], 'C17': ['Expr', 'Effects'], 'C12': ['Expr', 'Equiv', 'Dim', 'Sign', 'Shallow', 'RootSelect'], 'C16': ['Expr', 'Effects', 'ObjModel'], 'C09': ['Expr', 'Shallow', 'Pipeline'], 'C03': ['Expr', 'Shallow', 'Pipeline'], 'C06': ['Expr', 'Equiv', 'Sign', 'Shift', 'Replicate', 'DiffMat', 'TrigSum', 'DiffKernel', 'Bracket', 'InterpKernel'], 'C14': ['Expr', 'Shallow', 'TrigSum'], 'C15': ['Expr', 'Shallow', 'TrigSum', 'VmecEmit'], 'C18': ['Expr', 'ObjModel'], 'C10': ['Expr', 'Shallow'], 'C01': ['Expr', 'Shallow', 'Series'], 'C02': ['Expr', 'Shallow', 'Newton'],
     'C20': ['Expr', 'Equiv', 'Sign', 'Shift', 'Replicate', 'DiffMat', 'Newton', 'Bracket', 'TrigSum', 'DiffKernel', 'InterpKernel', 'EvenKernel'],
 }
-CHECKS = {'C10': check_C10, 'C06': check_C06, 'C14': check_C14, 'C15': check_C15, 'C18': check_C18, 'C12': check_C12, 'C16': check_C16, 'C17': check_C17, 'C03': check_C03, 'C19': check_C19, 'C09': check_C09, 'C13': check_C13, 'C11': check_C11, 'C02': check_C02, 'C20': check_C20, 'C04': check_C04, 'C08': check_C08, 'C07': check_C07, 'C05': check_C05}
+CHECKS = {'C01': check_C01, 'C10': check_C10, 'C06': check_C06, 'C14': check_C14, 'C15': check_C15, 'C18': check_C18, 'C12': check_C12, 'C16': check_C16, 'C17': check_C17, 'C03': check_C03, 'C19': check_C19, 'C09': check_C09, 'C13': check_C13, 'C11': check_C11, 'C02': check_C02, 'C20': check_C20, 'C04': check_C04, 'C08': check_C08, 'C07': check_C07, 'C05': check_C05}
 
 
 def main():
@@ -511,7 +526,7 @@ def main():
     seed = int(os.environ.get('VERIF_SEED', '20240930'))
     if a.replay:
         rep = json.load(open(a.replay))
-        mod = {'C08': 'oracle_C08', 'C07': 'oracle_sym', 'C05': 'oracle_sym', 'C04': 'oracle_C04', 'C02': 'oracle_C02', 'C20': 'kernels', 'C11': 'oracle_C11', 'C13': 'oracle_C13', 'C09': 'oracle_C09', 'C19': 'oracle_C19', 'C03': 'oracle_C03', 'C17': 'oracle_C17', 'C16': 'oracle_C16', 'C12': 'oracle_C12', 'C06': 'oracle_C06', 'C14': 'oracle_C14', 'C15': 'oracle_C15', 'C18': 'oracle_C18', 'C10': 'oracle_C10'}.get(a.prop)
+        mod = {'C08': 'oracle_C08', 'C07': 'oracle_sym', 'C05': 'oracle_sym', 'C04': 'oracle_C04', 'C02': 'oracle_C02', 'C20': 'kernels', 'C11': 'oracle_C11', 'C13': 'oracle_C13', 'C09': 'oracle_C09', 'C19': 'oracle_C19', 'C03': 'oracle_C03', 'C17': 'oracle_C17', 'C16': 'oracle_C16', 'C12': 'oracle_C12', 'C06': 'oracle_C06', 'C14': 'oracle_C14', 'C15': 'oracle_C15', 'C18': 'oracle_C18', 'C10': 'oracle_C10', 'C01': 'oracle_C01'}.get(a.prop)
         res = harness(mod, (['--prop', a.prop] if mod == 'oracle_sym' else []) + ['--mode', 'replay', '--file', a.replay])
         print(json.dumps(res, indent=1))
         return 1 if res.get('violations') else 0
